@@ -36,6 +36,7 @@ const (
 	req pkind = iota
 	opt
 	vari
+	varopt // variadic and with a default at once: never valid
 )
 
 type pdef struct {
@@ -43,9 +44,9 @@ type pdef struct {
 	Name string
 }
 
-func (p pdef) String() string { return []string{"", "?", "..."}[p.K] + p.Name }
+func (p pdef) String() string { return []string{"", "?", "...", "?..."}[p.K] + p.Name }
 
-var pnames = []string{"a", "b", "c", "1x", ""}
+var pnames = []string{"a", "b", "c", "1x", "", "A"}
 
 func validName(n string) bool {
 	if n == "" {
@@ -85,6 +86,8 @@ func refValid(l []pdef) bool {
 				return false
 			}
 			variadic = true
+		case varopt:
+			return false
 		}
 	}
 	return true
@@ -193,6 +196,10 @@ func mkParams(l []pdef) []*runtimev2.Param {
 			pp.Val = func() any { return "default-" + name }
 		case vari:
 			pp.Variable = true
+		case varopt:
+			name := p.Name
+			pp.Variable = true
+			pp.Val = func() any { return "default-" + name }
 		}
 		out[i] = pp
 	}
@@ -362,7 +369,7 @@ func allLists(maxLen int, f func(l []pdef)) {
 		if len(cur) == maxLen {
 			return
 		}
-		for k := req; k <= vari; k++ {
+		for k := req; k <= varopt; k++ {
 			for _, n := range pnames {
 				rec(append(cur, pdef{k, n}))
 			}
@@ -371,7 +378,7 @@ func allLists(maxLen int, f func(l []pdef)) {
 	rec(nil)
 }
 
-var argNames = []string{"", "a", "b", "c", "z"}
+var argNames = []string{"", "a", "b", "c", "z", "A"}
 
 func allCalls(maxLen int, f func(c []arg)) {
 	var rec func(cur []arg)
@@ -430,10 +437,10 @@ func TestRandomLarger(t *testing.T) {
 		n := rapid.IntRange(0, 4).Draw(t, "nparams")
 		l := make([]pdef, n)
 		for i := range l {
-			l[i] = pdef{pkind(rapid.IntRange(0, 2).Draw(t, "kind")), rapid.SampledFrom(pnames).Draw(t, "pname")}
+			l[i] = pdef{pkind(rapid.SampledFrom([]int{0, 0, 0, 1, 1, 1, 2, 2, 2, 3}).Draw(t, "kind")), rapid.SampledFrom(pnames).Draw(t, "pname")}
 			// bias towards well-formed lists so that calls get exercised
 			if rapid.IntRange(0, 3).Draw(t, "wf") != 0 {
-				l[i].Name = []string{"a", "b", "c", "d"}[i]
+				l[i].Name = [][]string{{"a", "b", "c", "d"}, {"a", "A", "b", "B"}, {"Sep", "sep", "SEP", "d"}}[rapid.SampledFrom([]int{0, 0, 1, 2}).Draw(t, "nameset")][i]
 				if i < n-1 && l[i].K == vari {
 					l[i].K = req
 				}
@@ -445,7 +452,7 @@ func TestRandomLarger(t *testing.T) {
 		m := rapid.IntRange(0, 5).Draw(t, "nargs")
 		call := make([]arg, m)
 		for i := range call {
-			call[i] = arg{Name: rapid.SampledFrom([]string{"", "", "a", "b", "c", "d", "z"}).Draw(t, "aname"), Val: int64(10 + i), Nil: rapid.IntRange(0, 5).Draw(t, "nil") == 0}
+			call[i] = arg{Name: rapid.SampledFrom([]string{"", "", "a", "b", "c", "d", "z", "A", "B", "sep", "Sep", "SEP"}).Draw(t, "aname"), Val: int64(10 + i), Nil: rapid.IntRange(0, 5).Draw(t, "nil") == 0}
 		}
 		checkCall(t, "random", l, call)
 	})
@@ -1005,6 +1012,8 @@ func parseSig(s string) ([]pdef, bool) {
 	var out []pdef
 	for _, p := range strings.Split(s, ", ") {
 		switch {
+		case strings.HasPrefix(p, "?..."):
+			out = append(out, pdef{varopt, p[4:]})
 		case strings.HasPrefix(p, "..."):
 			out = append(out, pdef{vari, p[3:]})
 		case strings.HasPrefix(p, "?"):
